@@ -41,3 +41,10 @@ Theorem C15_id_offset : forall k stop m b src,
   parse_source stop m (bshift k b) src = pshift k (parse_source stop m b src).
 Proof. exact parse_source_shift. Qed.
 Print Assumptions C15_id_offset.
+
+(* ... and the pickle compiler sees the AST's ids and the counter only as an offset too: compiling the shifted
+   document from the shifted counter gives the same pickles with every id and every reference k higher *)
+Require Import Compiler CompileShift.
+Theorem C15_compile_offset : forall k uri d i, compile uri (sh_doc k d) (i + k) = osh k (compile uri d i).
+Proof. exact compile_shift. Qed.
+Print Assumptions C15_compile_offset.
